@@ -9,7 +9,8 @@ import (
 )
 
 // freshCopyOf recognises the idioms that produce a private copy of a byte slice and returns the slice that is copied:
-//   dst := make([]byte, n); copy(dst, src)      bytes.Clone(src)      slices.Clone(src)      append([]byte(nil), src...)
+//
+//	dst := make([]byte, n); copy(dst, src)      bytes.Clone(src)      slices.Clone(src)      append([]byte(nil), src...)
 func freshCopyOf(v ssa.Value) (src ssa.Value, ok bool) {
 	v = core.Resolve(v)
 	switch x := v.(type) {
